@@ -46,12 +46,14 @@ def _package(run, sc, viol):
     return res
 
 
-def generate(prop, verif_seed, tier, idx):
+def generate(prop, verif_seed, tier, idx, fs=None, cfg_override=None):
     sc = scenario(prop)
     rng = random.Random(run_seed(verif_seed, prop, tier, idx))
     cfg = sc.config(rng, tier)
+    if cfg_override:
+        cfg.update(cfg_override)
     capture_stdout(True)
-    run = Run(prop, cfg, sc.oracles(cfg))
+    run = Run(prop, cfg, sc.oracles(cfg), fs=fs)
     viol = None
     try:
         sc.generate(run, rng)
